@@ -63,8 +63,16 @@ def opsRefs (op : String) (j : Json) : Option (Except String Json) :=
             | some c => pure (some c)
             | none => throw s!"no element at {s}"
           | _ => pure none
-        let fl : Flags := { lastSaved := getBoolD q "ls" false, indexedArg := getBoolD q "ia" false,
-                            inPredicate := getBoolD q "ip" false, useCurrent := getBoolD q "uc" false,
+        -- with "text"/"start"/"end" the occurrence flags are computed by the model from the cell text
+        let (ia, ip) : Bool × Bool := match q.getObjVal? "text" with
+          | .ok (.str t) =>
+            let w := t.toList
+            let st := getNatD q "start" 0
+            let en := getNatD q "end" 0
+            ((indexedArgAt w st en name).getD false, inPredicateAt w st en)
+          | _ => (getBoolD q "ia" false, getBoolD q "ip" false)
+        let fl : Flags := { lastSaved := getBoolD q "ls" false, indexedArg := ia,
+                            inPredicate := ip, useCurrent := getBoolD q "uc" false,
                             referenceParent := getBoolD q "rp" false }
         pure (outToJson (refFor els ctx name fl))
       pure (Json.arr out.toArray)
